@@ -21,12 +21,14 @@ fn arg<T: std::str::FromStr>(args: &[String], name: &str, default: T) -> T {
 fn flag(args: &[String], name: &str) -> bool { args.iter().any(|a| a == name) }
 
 pub static PROGRESS: std::sync::atomic::AtomicU64 = std::sync::atomic::AtomicU64::new(0);
+pub static FINISHED: std::sync::atomic::AtomicBool = std::sync::atomic::AtomicBool::new(false);
 pub static CURRENT: std::sync::Mutex<String> = std::sync::Mutex::new(String::new());
 /// called at the start of every case: lets the watchdog name the case that never returned
 pub fn progress(case: &str) { PROGRESS.fetch_add(1, std::sync::atomic::Ordering::Relaxed); if let Ok(mut c) = CURRENT.lock() { c.clear(); c.push_str(case); } }
 fn watchdog() {
     std::thread::spawn(|| { let mut last = u64::MAX; let mut idle = 0;
         loop { std::thread::sleep(std::time::Duration::from_millis(500));
+            if FINISHED.load(std::sync::atomic::Ordering::Relaxed) { return; }   // all cases done: only the output queue is draining
             let p = PROGRESS.load(std::sync::atomic::Ordering::Relaxed);
             if p == last && p != 0 { idle += 1 } else { idle = 0; last = p }
             if idle >= 20 { let c = CURRENT.lock().map(|c| c.clone()).unwrap_or_default(); eprintln!("HANG case did not return within 10 s: {}", c); std::process::exit(3); } } });
@@ -68,6 +70,7 @@ fn main() {
         "serde" => e_fmt::serde_cases(&mut out, seed, n),
         _ => { eprintln!("unknown subcommand {:?}", cmd); std::process::exit(2); }
     }
+    FINISHED.store(true, std::sync::atomic::Ordering::Relaxed);
     out.flush().unwrap();
     drop(out); let _ = writer.join();
 }
